@@ -42,6 +42,30 @@ func (c *Ctx) callsOfWalletDB(f *ssa.Function, name string) []ssa.CallInstructio
 	return out
 }
 
+// ctxCall is a call instruction together with the provenance context it is read in.
+type ctxCall struct {
+	O  *Origins
+	CI ssa.CallInstruction
+}
+
+// opCallsOfWalletDB: like callsOfWalletDB over the operation and the helpers that are new on this tree
+// (each read in its calling context).
+func (c *Ctx) opCallsOfWalletDB(f *ssa.Function, name string) []ctxCall {
+	var out []ctxCall
+	for _, og := range c.OpContexts(f) {
+		if og.Fn.Parent() != nil {
+			continue
+		}
+		for _, ci := range Calls(og.Fn) {
+			d := c.P.Describe(ci)
+			if d.Iface != nil && d.Iface.Name() == name {
+				out = append(out, ctxCall{og, ci})
+			}
+		}
+	}
+	return out
+}
+
 func errNilOf(call ssa.CallInstruction, name string) *Cond {
 	return &Cond{Name: name, Match: func(ft *Fact, _ *Origins) bool {
 		return ft.Kind == "errnil" && ft.Pos && ft.A.K == "call" && ft.A.Call == call
@@ -309,8 +333,9 @@ func (c *Ctx) c17Others() {
 			}
 		}
 		if post != nil {
-			for _, dp := range c.callsOfWalletDB(f, "DeleteProof") {
-				ok, why := o.Requires(dp, errNilOf(post, "swap succeeded"))
+			for _, cc := range c.opCallsOfWalletDB(f, "DeleteProof") {
+				dp := cc.CI
+				ok, why := c.RequireAt(dp, errNilOf(post, "swap succeeded"))
 				R.Check("R2", fk, "inputs deleted <= swap succeeded", c.P.InstrPos(dp), ok, "the swapped inputs leave the spendable bucket only after the mint accepted the swap", why)
 			}
 			saves := c.callsOfWalletDB(f, "SaveProofs")
@@ -405,11 +430,17 @@ func (c *Ctx) c17Others() {
 				}
 			}
 			R.Check("R2", fk, "pending records deleted are exactly those the mint reported UNSPENT", c.P.InstrPos(dp), okA, "only proofs whose state the mint reported as UNSPENT (and that were re-swapped) are removed from pending", why)
-			saves := c.callsOfWalletDB(f, "SaveProofs")
-			for _, s := range saves {
-				ok, w := o.Requires(dp, errNilOf(s, "reclaimed proofs saved"))
-				R.Check("R2", fk, "pending deleted <= reclaimed proofs saved", c.P.InstrPos(dp), ok, "the pending records are removed only after the reclaimed value was saved", w)
-			}
+			// (the save may sit in the operation or in a helper that is new on this tree: then the helper's
+			// success establishes it through its summary)
+			savedAny := &Cond{Name: "reclaimed proofs saved", Via: func(g *ssa.Function) bool { return c.P.IsNewFunc(g) }, Match: func(ft *Fact, _ *Origins) bool {
+				if ft.Kind != "errnil" || !ft.Pos || ft.A.K != "call" || ft.A.Call == nil {
+					return false
+				}
+				d := c.P.Describe(ft.A.Call)
+				return d.Iface != nil && d.Iface.Name() == "SaveProofs"
+			}}
+			ok, w := o.Requires(dp, savedAny)
+			R.Check("R2", fk, "pending deleted <= reclaimed proofs saved", c.P.InstrPos(dp), ok, "the pending records are removed only after the reclaimed value was saved", w)
 		}
 	}
 }
@@ -573,8 +604,9 @@ func rulesC18(c *Ctx) {
 				}
 			}
 		}
-		for _, dp := range c.callsOfWalletDB(f, "DeleteProof") {
-			v := o.Of(c.P.Describe(dp).Args[0])
+		for _, cc := range c.opCallsOfWalletDB(f, "DeleteProof") {
+			dp := cc.CI
+			v := cc.O.Of(c.P.Describe(dp).Args[0])
 			ok := v.String() == "elem("+sel+").Secret"
 			R.Check("R1", fk, "exactly the returned proofs are removed", c.P.InstrPos(dp), ok, "every returned proof (and nothing else) leaves the spendable bucket", short(v.String(), 120))
 		}
